@@ -75,6 +75,36 @@ def observe(t, rng=None):
     return out, bad
 
 
+# ----------------------------------------------------------------------------- ID containers
+CONTAINERS = ["list", "tuple", "array_str", "array_object", "pandas_index"]
+
+
+def as_container(ids, kind):
+    """the same IDs in every kind of container the constructor / the operations accept"""
+    ids = [str(i) for i in ids]
+    if kind in (None, "list"):
+        return ids
+    if kind == "tuple":
+        return tuple(ids)
+    import numpy as np
+    if kind == "array_str":
+        return np.array(ids) if ids else np.array(ids, dtype=str)
+    if kind == "array_object":
+        return np.array(ids, dtype=object)
+    if kind == "pandas_index":
+        import pandas as pd
+        return pd.Index(ids, dtype=object)
+    raise ValueError(kind)
+
+
+def build_table(spec, route, containers=None):
+    """core.build with the ID lists handed over in the requested containers ({"obs": kind, "samp": kind})"""
+    if containers:
+        spec = dict(spec, obs=as_container(spec["obs"], containers.get("obs")),
+                    samp=as_container(spec["samp"], containers.get("samp")))
+    return core.build(spec, route)
+
+
 # ----------------------------------------------------------------------------- user functions for sort
 def _natsort(ids):
     from biom.util import natsort
@@ -105,11 +135,11 @@ def apply_op(t, op, rec=None):
     style = op.get("style")
     if k == "sort_order":
         order = list(op["order"])
-        if op.get("order_type") == "tuple":
-            order = tuple(order)
-        elif op.get("order_type") == "array" and order:
-            import numpy as np
-            order = np.array(order)
+        ot = op.get("order_type")
+        if ot == "array":
+            ot = "array_str"
+        if ot and (order or ot in ("tuple", "array_object", "pandas_index")):
+            order = as_container(order, ot)
         if style == "defaults" and op["axis"] == "sample":
             return t.sort_order(order)
         if style == "positional":
@@ -133,7 +163,7 @@ def apply_op(t, op, rec=None):
             return out
         return t.sort(sort_f=wrapped, axis=op["axis"])
     if k == "align_to":
-        other = core.build(op["other"], op.get("other_route", "dense"))
+        other = build_table(op["other"], op.get("other_route", "dense"), op.get("other_containers"))
         if rec is not None:
             rec["other_obs"] = [str(i) for i in other.ids(axis="observation")]
             rec["other_samp"] = [str(i) for i in other.ids()]
@@ -177,7 +207,7 @@ def build_chain(case, real=True):
     (case["derive"]) stays alive as a bystander [(label, table)].  On the real chain (not the twin used for
     observing) the receiver is optionally read in full in a random accessor order (case["preread"]) and left in a
     random layout (case["poke"])."""
-    t = core.build(case["spec"], case["route"])
+    t = build_table(case["spec"], case["route"], case.get("containers"))
     chain = [("built", t)]
     for k, h in enumerate(case["history"]):
         t = apply_op(t, h)
@@ -265,7 +295,8 @@ def evaluate(ctx, case, tags=(), nontrivial=True):
         now, bad = observe(x)
         if bad or now != was:
             by_bad.append((label, bad or ["content changed"]))
-    req = {k: v for k, v in op.items() if k not in ("other", "other_route", "f", "style", "order_type")}
+    req = {k: v for k, v in op.items() if k not in ("other", "other_route", "other_containers", "f", "style",
+                                                    "order_type")}
     req["table"] = before
     req["obs"] = {"result": result, "after": after, "same": same}
     if op["op"] == "sort":
@@ -466,12 +497,12 @@ def gen_other(rng, t_obs, t_samp, how):
 RELS = ["same", "permuted", "reversed", "subset", "superset", "replaced", "disjoint"]
 
 
-def gen_history(ctx, rng, spec, route, max_len):
+def gen_history(ctx, rng, spec, route, max_len, containers=None):
     """a list of prior operations (valid arguments: all must succeed), generated by running them"""
     hist = []
     n = rng.choice([0, 0, 1, 1, 2, 3][:max_len + 3])
     try:
-        t = core.build(spec, route)
+        t = build_table(spec, route, containers)
     except Exception:  # noqa: reported by safe_receiver
         return hist
     for _ in range(n):
@@ -505,8 +536,15 @@ def gen_history(ctx, rng, spec, route, max_len):
     return hist
 
 
-def mk_case(spec, route, history, op, poke=None):
-    return {"spec": spec, "route": route, "history": history, "op": op, "poke": poke}
+def mk_case(spec, route, history, op, poke=None, containers=None):
+    c = {"spec": spec, "route": route, "history": history, "op": op, "poke": poke}
+    if containers:
+        c["containers"] = containers
+    return c
+
+
+def gen_containers(rng):
+    return {"obs": rng.choice(CONTAINERS), "samp": rng.choice(CONTAINERS)}
 
 
 def ids_of(case, axis):
@@ -603,10 +641,13 @@ def op_stream(ctx, n, max_dim):
                             spec[key][k] = {}
         if rng.random() < 0.2:
             odd_id_text(rng, spec)
+        if rng.random() < 0.12:
+            share_labels(rng, spec)
         route = rng.choice(core.ROUTES)
-        hist = gen_history(ctx, rng, spec, route, 3)
+        containers = gen_containers(rng) if rng.random() < 0.5 else None
+        hist = gen_history(ctx, rng, spec, route, 3, containers)
         base = mk_case(spec, route, hist, None, rng.choice([None, "col", "row", {"seed": rng.randrange(10 ** 6)},
-                                                            {"seed": rng.randrange(10 ** 6)}]))
+                                                            {"seed": rng.randrange(10 ** 6)}]), containers)
         if rng.random() < 0.3:
             base["preread"] = rng.randrange(10 ** 6)
         if rng.random() < 0.15:
@@ -636,13 +677,14 @@ def op_stream(ctx, n, max_dim):
             elif kind == "empty":
                 order = []
             case = dict(base, op={"op": "sort_order", "order": order, "axis": ax, "style": style,
-                                  "order_type": rng.choice([None, None, "tuple", "array"])})
+                                  "order_type": rng.choice([None, None] + CONTAINERS[1:])})
             r, _ = evaluate(ctx, case, ("random", "order=" + kind), nontrivial=len(ids[ax]) >= 2)
             ctx.count("order-kind=%s" % kind)
             if kind == "perm":
                 ctx.count("perm-length=%d" % len(order))
             if r is not None and kind == "perm":
-                back = mk_case(spec, route, hist + [case["op"]], {"op": "sort_order", "order": ids[ax], "axis": ax})
+                back = mk_case(spec, route, hist + [case["op"]], {"op": "sort_order", "order": ids[ax], "axis": ax},
+                               containers=containers)
                 r2, _ = evaluate(ctx, back, ("random", "inverse"))
                 if r2 is not None:
                     check_restored(ctx, back, t0_obs, r2, "sort_order_then_inverse")
@@ -657,9 +699,10 @@ def op_stream(ctx, n, max_dim):
                 how = (rng.choice(["same", "permuted", "reversed"]), rng.choice(["same", "permuted", "reversed"]))
             other = gen_other(rng, ids["observation"], ids["sample"], how)
             oroute = rng.choice(["dense", "csc", "sort_roundtrip"])
+            ocont = gen_containers(rng) if rng.random() < 0.5 else None
             for a in ALIGN_AXES + (("bogus",) if rng.random() < 0.1 else ()):
                 case = dict(base, op={"op": "align_to", "other": other, "other_route": oroute, "axis": a,
-                                      "style": style})
+                                      "style": style, "other_containers": ocont})
                 evaluate(ctx, case, ("random", "align=%s/%s" % how))
                 ctx.count("align-relation=%s/%s" % tuple("equal" if h in ("same", "permuted", "reversed") else "unequal"
                                                          for h in how))
@@ -667,7 +710,7 @@ def op_stream(ctx, n, max_dim):
             case = dict(base, op={"op": "transpose"})
             r, _ = evaluate(ctx, case, ("random",))
             if r is not None:
-                back = mk_case(spec, route, hist + [case["op"]], {"op": "transpose"})
+                back = mk_case(spec, route, hist + [case["op"]], {"op": "transpose"}, containers=containers)
                 r2, _ = evaluate(ctx, back, ("random", "transpose-twice"))
                 if r2 is not None:
                     check_restored(ctx, back, t0_obs, r2, "transpose_twice")
@@ -685,7 +728,8 @@ def op_stream(ctx, n, max_dim):
                     if r is not None and kind in ("total-injective", "lengthen-total", "shorten", "cycle") and not inplace:
                         inv = [[b, a] for a, b in m]
                         back = mk_case(spec, route, hist + [case["op"]],
-                                       {"op": "update_ids", "id_map": inv, "axis": ax, "strict": strict, "inplace": True})
+                                       {"op": "update_ids", "id_map": inv, "axis": ax, "strict": strict, "inplace": True},
+                                       containers=containers)
                         r2, _ = evaluate(ctx, back, ("random", "inverse-renaming"))
                         if r2 is not None:
                             check_restored(ctx, back, t0_obs, r2, "rename_then_inverse")
@@ -727,33 +771,131 @@ def aliasing_stream(ctx, specs):
                     ctx.count("aliasing=%s/%s" % (direction, dk))
 
 
-def wide_stream(ctx, n):
-    """a few tables with >= 64 IDs on one axis, arguments in non-axis order"""
+def share_labels(rng, spec):
+    """give the two axes (partly) the same ID text, each in its own order"""
+    obs, samp = spec["obs"], spec["samp"]
+    k = min(len(obs), len(samp))
+    shared = random_perm(rng, obs)[:k]
+    rest = [x for x in samp if x not in obs][:len(samp) - k]
+    new = random_perm(rng, shared + rest)
+    if len(set(new)) == len(samp):
+        spec["samp"] = new
+
+
+def numbered_spec(rng, n_axis, axis, other=None, md=True, shuffled=False):
+    """S1..Sn on one axis: the numeric order is not the lexicographic one (S10 < S2 as text)"""
+    other = other or rng.choice([2, 3])
+    n, m = (other, n_axis) if axis == "sample" else (n_axis, other)
+    obs = ["O%d" % (i + 1) for i in range(n)]
+    samp = ["S%d" % (i + 1) for i in range(m)]
+    if shuffled:
+        rng.shuffle(obs)
+        rng.shuffle(samp)
+    # every cell distinct, a third of them zero
+    rows = [[float(1 + i * m + j) if (i + j) % 3 else 0.0 for j in range(m)] for i in range(n)]
+    return {"obs": obs, "samp": samp, "rows": rows,
+            "omd": [{"k": "md-" + i} for i in obs] if md else None,
+            "smd": [{"k": "md-" + i} for i in samp] if md else None, "type": None}
+
+
+def wide_stream(ctx, sizes):
+    """tables with many IDs on the reordered axis (thresholds met in fast paths: 64, 128, 256), current order not
+    lexicographic; permutation + inverse, sort, align_to, transpose, update_ids; arguments in non-axis order"""
     rng = ctx.rng
-    for k in range(n):
+    for k, n_axis in enumerate(sizes):
         wax = AX[k % 2]
-        spec = core.wide_spec(rng, axis=wax, md=(k % 3 == 0))
+        oax = AX[1 - k % 2]
+        spec = numbered_spec(rng, n_axis, wax, md=(k % 3 != 2), shuffled=(k % 4 == 3))
         ids = spec["samp"] if wax == "sample" else spec["obs"]
         route = rng.choice(["dense", "csc", "csr_unsorted"])
         poke = {"seed": rng.randrange(10 ** 6)}
+        cont = gen_containers(rng) if k % 2 else None
+        t0_obs = observe(build_table(spec, route, cont))[0]
         perm = random_perm(rng, ids)
-        case = mk_case(spec, route, [], {"op": "sort_order", "order": perm, "axis": wax}, poke)
+        case = mk_case(spec, route, [], {"op": "sort_order", "order": perm, "axis": wax}, poke, cont)
         r, _ = evaluate(ctx, case, ("wide",))
         if r is not None:
-            back = mk_case(spec, route, [case["op"]], {"op": "sort_order", "order": list(ids), "axis": wax}, poke)
+            back = mk_case(spec, route, [case["op"]], {"op": "sort_order", "order": list(ids), "axis": wax}, poke, cont)
             r2, _ = evaluate(ctx, back, ("wide", "inverse"))
             if r2 is not None:
-                check_restored(ctx, back, observe(core.build(spec, route))[0], r2, "sort_order_then_inverse")
-        evaluate(ctx, mk_case(spec, route, [case["op"]], {"op": "transpose"}, poke), ("wide",))
-        evaluate(ctx, mk_case(spec, route, [], {"op": "sort", "f": rng.choice(["default", "reverse"]), "axis": wax},
-                              poke), ("wide",))
-        evaluate(ctx, mk_case(spec, route, [case["op"]],
-                              {"op": "update_ids", "id_map": gen_map(rng, ids, rng.choice(["lengthen-total", "cycle"])),
-                               "axis": wax, "strict": True, "inplace": k % 2 == 0}, poke), ("wide",))
+                check_restored(ctx, back, t0_obs, r2, "sort_order_then_inverse")
+        for f in ("default", "sorted"):
+            # from the numeric order and from a shuffled one
+            evaluate(ctx, mk_case(spec, route, [], {"op": "sort", "f": f, "axis": wax}, poke, cont), ("wide",))
+            evaluate(ctx, mk_case(spec, route, [case["op"]], {"op": "sort", "f": f, "axis": wax}, poke, cont), ("wide",))
         other = gen_other(rng, spec["obs"], spec["samp"], ("permuted", "permuted"))
-        evaluate(ctx, mk_case(spec, route, [], {"op": "align_to", "other": other, "axis": rng.choice(["both", "detect"])},
-                              poke), ("wide",))
-        ctx.count("wide-axis-length=%d" % len(ids))
+        for a in ("both", "detect", wax):
+            evaluate(ctx, mk_case(spec, route, [], {"op": "align_to", "other": other, "axis": a}, poke, cont), ("wide",))
+        if k % 2 == 0:
+            evaluate(ctx, mk_case(spec, route, [case["op"]], {"op": "transpose"}, poke, cont), ("wide",))
+            # after a transpose the long axis is the other one
+            evaluate(ctx, mk_case(spec, route, [{"op": "transpose"}],
+                                  {"op": "sort_order", "order": perm, "axis": oax}, poke, cont), ("wide",))
+        evaluate(ctx, mk_case(spec, route, [case["op"]],
+                              {"op": "update_ids", "id_map": gen_map(rng, ids, rng.choice(["lengthen", "cycle"])),
+                               "axis": wax, "strict": False, "inplace": k % 2 == 0}, poke, cont), ("wide",))
+        ctx.count("wide-axis-length=%s" % ("64-127" if n_axis < 128 else "128-255" if n_axis < 256 else ">=256"))
+
+
+def container_stream(ctx, specs):
+    """every operation on tables whose IDs were handed over in every accepted kind of container"""
+    rng = ctx.rng
+    pairs = [{"obs": k, "samp": k} for k in CONTAINERS] + [{"obs": "pandas_index", "samp": "list"},
+                                                           {"obs": "array_str", "samp": "array_object"}]
+    for spec in specs:
+        for cont in pairs:
+            for ax in AX:
+                ids = spec["obs"] if ax == "observation" else spec["samp"]
+                ops = [{"op": "sort_order", "order": random_perm(rng, ids), "axis": ax,
+                        "order_type": rng.choice(CONTAINERS)},
+                       {"op": "sort", "f": rng.choice(["default", "reverse"]), "axis": ax}]
+                for kind in ("shorten-partial", "only-absent-keys", "lengthen", "lookalike-keys"):
+                    for inplace in (True, False):
+                        ops.append({"op": "update_ids", "id_map": gen_map(rng, ids, kind), "axis": ax,
+                                    "strict": False, "inplace": inplace})
+                ops.append({"op": "update_ids", "id_map": gen_map(rng, ids, "shorten"), "axis": ax, "strict": True,
+                            "inplace": rng.random() < 0.5})
+                for op in ops:
+                    evaluate(ctx, mk_case(spec, rng.choice(["dense", "csc"]), [], op, None, cont), ("containers",))
+            other = gen_other(rng, spec["obs"], spec["samp"], ("permuted", "reversed"))
+            evaluate(ctx, mk_case(spec, "dense", [], {"op": "align_to", "other": other, "axis": rng.choice(ALIGN_AXES),
+                                                      "other_containers": gen_containers(rng)}, None, cont), ("containers",))
+            evaluate(ctx, mk_case(spec, "dense", [], {"op": "transpose"}, None, cont), ("containers",))
+            evaluate(ctx, mk_case(spec, "dense", [{"op": "transpose"}], {"op": "copy"}, None, cont), ("containers",))
+            ctx.count("containers=%s/%s" % (cont["obs"], cont["samp"]))
+
+
+COOC_FS = ["default", "sorted", "reverse", "bylen"]
+
+
+def cooccurrence_stream(ctx, labels, orders, fs, tag):
+    """square tables carrying the SAME labels on both axes (co-occurrence style), each axis in its own order —
+    one sorted and the other not, both, neither; sort on every axis, the two-step sorts, sort_order, align_to"""
+    rng = ctx.rng
+    n = len(labels)
+    for po in orders:
+        for ps in orders:
+            spec = {"obs": list(po), "samp": list(ps),
+                    "rows": [[float(1 + labels.index(o) * n + labels.index(s2)) if (labels.index(o) + 2 * labels.index(s2)) % 4
+                              else 0.0 for s2 in ps] for o in po],
+                    "omd": [{"who": "obs-" + o} for o in po], "smd": [{"who": "samp-" + s2} for s2 in ps], "type": None}
+            cont = gen_containers(rng) if rng.random() < 0.3 else None
+            for f in fs:
+                for ax in AX:
+                    op = {"op": "sort", "f": f, "axis": ax}
+                    evaluate(ctx, mk_case(spec, "dense", [], op, None, cont), (tag,))
+                    # the usual idiom: sort one axis, then the other
+                    oax = AX[1 - AX.index(ax)]
+                    evaluate(ctx, mk_case(spec, "dense", [{"op": "sort", "f": f, "axis": oax}], op, None, cont),
+                             (tag, "two-step"))
+                    ctx.count("cooccurrence=sort/%s" % f)
+            ax = rng.choice(AX)
+            evaluate(ctx, mk_case(spec, "dense", [], {"op": "sort_order", "order": random_perm(rng, labels), "axis": ax},
+                                  None, cont), (tag,))
+            other = dict(spec, obs=random_perm(rng, labels), samp=random_perm(rng, labels), omd=None, smd=None)
+            evaluate(ctx, mk_case(spec, "dense", [], {"op": "align_to", "other": other,
+                                                      "axis": rng.choice(ALIGN_AXES)}, None, cont), (tag,))
+            ctx.count("cooccurrence=tables")
 
 
 def small_specs(rng):
@@ -791,13 +933,26 @@ def run(ctx):
     evaluate(ctx, mk_case(specs[0], "dense", [], {"op": "sort", "f": "reverse", "axis": "sample"}), ("fixed",))
     fixed_corpus(ctx)
     aliasing_stream(ctx, specs[:2] if quick else specs)
-    wide_stream(ctx, 2 if quick else 12)
+    container_stream(ctx, specs[:1] if quick else specs[:3])
+    rng = ctx.rng
+    if quick:
+        wide_stream(ctx, [rng.randint(129, 200), rng.randint(257, 300)])
+    else:
+        wide_stream(ctx, [rng.randint(64, 127), rng.randint(128, 140), rng.randint(129, 255), rng.randint(256, 300),
+                          rng.randint(257, 400), 128, 256, 64] + [rng.randint(130, 320) for _ in range(8)])
+    # shared labels on both axes: all pairs of initial orders of 3 labels; a sample of the 4-label ones
+    l3 = ["taxon2", "taxon10", "taxon1"]
+    cooccurrence_stream(ctx, l3, list(itertools.permutations(l3)), ["default", "reverse"] if quick else COOC_FS, "cooccurrence")
+    l4 = ["b", "a10", "a9", "B"]
+    p4 = list(itertools.permutations(l4))
+    cooccurrence_stream(ctx, l4, rng.sample(p4, 3 if quick else 12) + [tuple(sorted(l4))],
+                        ["default", "sorted"] if quick else COOC_FS, "cooccurrence")
     routes = ["dense", "csc", "csr_unsorted"] if quick else list(core.ROUTES)
     exhaustive_perms(ctx, specs[:3] if quick else specs, routes if not quick else routes[:2])
     ctx.exhaustive = False
     if quick:
-        op_stream(ctx, 520, 6)
-        op_stream(ctx, 170, 9)
+        op_stream(ctx, 430, 6)
+        op_stream(ctx, 140, 9)
     else:
         op_stream(ctx, 11000, 6)
         op_stream(ctx, 6000, 12)
